@@ -17,7 +17,9 @@
 (***************************************************************************)
 EXTENDS Integers, Sequences, FiniteSets, TLC, Json, SequencesExt, FiniteSetsExt
 
-CONSTANTS MaxSources, MaxLen
+CONSTANTS MaxSources, MaxLen,
+          BlanksOnce     \* TRUE = the code: one blank per codepoint; FALSE = one entry per OCCURRENCE in the glyph order
+                         \* (negative configuration: recorded glyph ids then point past the compiled glyphs)
 
 CP == { [hex |-> "41", ch |-> "A"], [hex |-> "67", ch |-> "g"], [hex |-> "a9", ch |-> ""],
         [hex |-> "200d", ch |-> ""], [hex |-> "fe0f", ch |-> ""], [hex |-> "1f600", ch |-> ""], [hex |-> "1f3fb", ch |-> ""] }
@@ -30,12 +32,14 @@ Name(s) == IF AlphaStart(s[1]) THEN Join(s) ELSE "g_" \o Join(s)
 
 Seqs == UNION {[1..n -> CP] : n \in 1..MaxLen}
 VARIABLES srcs,      \* set of pairwise distinct codepoint sequences (one source each)
-          phase, order, cmap, blank, owner, ligs, dup
-vars == <<srcs, phase, order, cmap, blank, owner, ligs, dup>>
+          phase, order, cmap, blank, owner, ligs, dup,
+          gid        \* glyph name -> the glyph id RECORDED for its colour glyph when it is added (formats that attach artwork by
+                     \* glyph id - untouchedsvg, cbdt, sbix - keep this number)
+vars == <<srcs, phase, order, cmap, blank, owner, ligs, dup, gid>>
 
 Init == /\ \E a, b \in Seqs : srcs = {a, b}          \* one or two sources (MaxSources = 2)
         /\ phase = "blanks" /\ order = <<".notdef", ".space">> /\ cmap = [c \in {} |-> ""]
-        /\ blank = {".space"} /\ owner = [n \in {} |-> << >>] /\ ligs = {} /\ dup = FALSE
+        /\ blank = {".space"} /\ owner = [n \in {} |-> << >>] /\ ligs = {} /\ dup = FALSE /\ gid = [n \in {} |-> 0]
 
 AllCps == UNION {{s[i] : i \in DOMAIN s} : s \in srcs}
 Direct == {s[1] : s \in {x \in srcs : Len(x) = 1}}
@@ -43,17 +47,23 @@ NeedBlank == AllCps \ Direct
 
 EnsureBlanks ==
     /\ phase = "blanks"
-    /\ LET names == {Name(<<c>>) : c \in NeedBlank} IN
+    /\ LET names == {Name(<<c>>) : c \in NeedBlank}
+           \* how often a sequence-only codepoint occurs over all sequences
+           occ(c) == Cardinality({<<s, i>> \in srcs \X (1..MaxLen) : i <= Len(s) /\ s[i] = c})
+           twice == {Name(<<c>>) : c \in {d \in NeedBlank : occ(d) > 1}} IN
        /\ order' = order \o SetToSeq(names)            \* order among blanks is irrelevant to the properties
+                         \o (IF BlanksOnce THEN << >> ELSE SetToSeq(twice))    \* the repeated entries of the negative design
        /\ blank' = blank \cup names
        /\ cmap' = [c \in NeedBlank |-> Name(<<c>>)]
-    /\ phase' = "glyphs" /\ UNCHANGED <<srcs, owner, ligs, dup>>
+    /\ phase' = "glyphs" /\ UNCHANGED <<srcs, owner, ligs, dup, gid>>
 
 AddGlyphs ==       \* the unambiguity gate (fix eacaeaa), then one colour glyph per source; existing names are reused
     /\ phase = "glyphs"
     /\ IF \E a, b \in srcs : a # b /\ Name(a) = Name(b)
-       THEN /\ dup' = TRUE /\ phase' = "error" /\ UNCHANGED <<order, cmap, owner, blank, ligs>>
+       THEN /\ dup' = TRUE /\ phase' = "error" /\ UNCHANGED <<order, cmap, owner, blank, ligs, gid>>
        ELSE /\ order' = order \o SetToSeq({Name(s) : s \in srcs} \ Range(order))
+            \* the glyph id of a colour glyph is read off the glyph order as it stands (0-based)
+            /\ gid' = [n \in {Name(s) : s \in srcs} |-> (CHOOSE i \in DOMAIN order' : order'[i] = n) - 1]
             /\ owner' = [n \in {Name(s) : s \in srcs} |-> CHOOSE s \in srcs : Name(s) = n]
             /\ cmap' = [c \in DOMAIN cmap \cup Direct |-> IF c \in Direct THEN Name(<<c>>) ELSE cmap[c]]
             /\ blank' = blank \ {Name(s) : s \in srcs}   \* a blank whose name a source claims now carries artwork
@@ -79,6 +89,13 @@ Reachable == Done => \A s \in srcs : Shape(s) = <<Name(s)>>
 \* ... and a codepoint that occurs only inside sequences shapes to a BLANK glyph, never to some source's artwork
 OnlyFromOwn == Done => \A c \in NeedBlank : cmap[c] \in blank
 Distinct == Done => \A a, b \in srcs : a # b => Name(a) # Name(b)
+\* the font compiler keeps the first occurrence of a name only: what the recorded glyph ids must survive
+RECURSIVE Dedupe(_, _)
+Dedupe(s, seen) == IF s = << >> THEN << >>
+                   ELSE IF Head(s) \in seen THEN Dedupe(Tail(s), seen)
+                   ELSE <<Head(s)>> \o Dedupe(Tail(s), seen \cup {Head(s)})
+Compiled == Dedupe(order, {})
+GidIsFinal == Done => \A n \in DOMAIN gid : gid[n] + 1 <= Len(Compiled) /\ Compiled[gid[n] + 1] = n
 Skeleton == Done => order[1] = ".notdef" /\ ".space" \in blank
 \* C10: names derived from distinct sequences are distinct (fails: "g" + "_" + x  vs  "g_" + x)
 NameInjective == \A a, b \in Seqs : a # b => Name(a) # Name(b)
